@@ -37,6 +37,10 @@ pub enum Op {
     /// `near`, else idx(span, len - start) further
     Fetch { rec: u16, by_name: bool, a: u16, span: u16, near: bool },
     FetchAll { rec: u16, by_name: bool },
+    /// sequential window scan: the next interval of the record fetched last begins where that interval ended
+    /// (`again`: where it began), and is idx(span, room) long as in `Fetch`; without an earlier valid fetch:
+    /// record 0 from base 0
+    FetchNext { by_name: bool, span: u16, near: bool, again: bool },
     /// read() into the (reused, non-empty) buffer
     Read,
     /// read_iter(); None = consume completely, Some(f) = take idx(f, expected length) items, then drop
@@ -203,6 +207,8 @@ struct Seen {
     cut_beyond: bool,
     cut_before: bool,
     cut_before_ok: bool,
+    cut_failure_compared: bool,
+    fetch_next: bool,
     last_line_unterminated_read: bool,
     single_base: bool,
 }
@@ -257,6 +263,33 @@ impl<'a> Run<'a> {
         }
     }
 
+    /// "consecutive fetches on one reader are independent", on a file shorter than the index promises: a valid
+    /// fetch + read that fails in the middle of a history must also fail on a fresh reader over the same bytes
+    /// (whether a truncated file serves an interval that is still present is left open by the property; that
+    /// the answer depends on what the reader did before is not)
+    fn independent_failure(&self, i: usize, rec: usize, start: u64, stop: u64, how: &str, err: &dyn std::fmt::Debug) -> Result<(), Stop> {
+        let (c, b) = (self.c, self.b);
+        let data = Rc::new(match self.cut {
+            Some(k) => b.file[..k as usize].to_vec(),
+            None => b.file.clone(),
+        });
+        let sched: Vec<u32> = c.sched.iter().map(|&s| s.max(1)).collect();
+        let src = ChunkedReader::whole(data, &sched, None);
+        let fai_src = ChunkedReader::whole(Rc::new(b.fai.clone()), &sched, None);
+        let Ok(mut fresh) = IndexedReader::new(src, fai_src) else { return Ok(()) };
+        if fresh.fetch_by_rid(rec, start, stop).is_err() {
+            return Ok(());
+        }
+        let mut out = Vec::new();
+        if fresh.read(&mut out).is_ok() {
+            fail!(
+                "{}: {} of the valid interval {}..{} of record {} failed ({:?}) after the operations before it, but the same fetch + read on a fresh reader over the same file succeeds with {}: consecutive fetches are not independent",
+                self.ctx(i), how, start, stop, rec, err, excerpt(&out)
+            );
+        }
+        Ok(())
+    }
+
     fn history(&self, seen: &mut Seen) -> Result<(), Stop> {
         let c = self.c;
         let b = self.b;
@@ -305,6 +338,22 @@ impl<'a> Run<'a> {
                     cur = Cur::Valid { rec: r, start, stop };
                     tainted = false;
                     fetches += 1;
+                }
+                Op::FetchNext { by_name, span, near, again } => {
+                    let (r, start) = match cur {
+                        Cur::Valid { rec, start, stop } => (rec, if *again { start } else { stop }),
+                        _ => (0, 0),
+                    };
+                    let e = &b.entries[r];
+                    let room = e.len - start;
+                    let room = if *near { room.min(3 * e.width + 4) } else { room };
+                    let stop = start + idx(*span, room as usize) as u64;
+                    let res = if *by_name { rd.fetch(&e.name, start, stop) } else { rd.fetch_by_rid(r, start, stop) };
+                    ensure!(res.is_ok(), "{}: fetch of the valid interval {}..{} of record {} failed: {:?}", self.ctx(i), start, stop, r, res);
+                    cur = Cur::Valid { rec: r, start, stop };
+                    tainted = false;
+                    fetches += 1;
+                    seen.fetch_next = true;
                 }
                 Op::FetchAll { rec, by_name } => {
                     let r = pick(*rec);
@@ -421,6 +470,10 @@ impl<'a> Run<'a> {
                                 }
                                 Err(e) => {
                                     ensure!(self.cut.is_some() || tainted, "{}: read() of the valid interval {}..{} of record {} failed: {:?}", self.ctx(i), start, stop, rec, e);
+                                    if self.cut.is_some() && !tainted {
+                                        self.independent_failure(i, rec, start, stop, "read()", e)?;
+                                        seen.cut_failure_compared = true;
+                                    }
                                 }
                             }
                             self.note(seen, rec, start, stop, fetches, last_iter_partial);
@@ -497,7 +550,13 @@ impl<'a> Run<'a> {
                                 err.as_ref().map(|e| format!("; then {}", e)).unwrap_or_default()
                             );
                             match &err {
-                                Some(e) => ensure!(self.cut.is_some() || tainted, "{}: read_iter() of the valid interval {}..{} of record {} failed: {}", self.ctx(i), start, stop, rec, e),
+                                Some(e) => {
+                                    ensure!(self.cut.is_some() || tainted, "{}: read_iter() of the valid interval {}..{} of record {} failed: {}", self.ctx(i), start, stop, rec, e);
+                                    if self.cut.is_some() && !tainted {
+                                        self.independent_failure(i, rec, start, stop, "read_iter()", e)?;
+                                        seen.cut_failure_compared = true;
+                                    }
+                                }
                                 None => {
                                     if ended {
                                         ensure!(
@@ -638,6 +697,8 @@ pub fn check(c: &Case) -> R {
     pass.add_if(seen.cut_beyond, "cut file: requested base behind the cut");
     pass.add_if(seen.cut_before, "cut file: interval entirely before the cut");
     pass.add_if(seen.cut_before_ok, "cut file: interval before the cut read correctly");
+    pass.add_if(seen.cut_failure_compared, "cut file: failed read compared with a fresh reader");
+    pass.add_if(seen.fetch_next, "sequential scan: fetch starting where the last interval ended / began");
     pass.add_if(c.recs.iter().any(|r| r.width == 1), "line width 1");
     pass.add_if(c.recs.iter().any(|r| r.len % r.width == 0), "length multiple of line width");
     pass.add_if(c.recs.iter().any(|r| r.len <= r.width), "single-line record");
@@ -676,6 +737,7 @@ fn fetch_op() -> BoxedStrategy<Op> {
     prop_oneof![
         8 => (any::<u16>(), any::<bool>(), any::<u16>(), any::<u16>(), any::<bool>()).prop_map(|(rec, by_name, a, span, near)| Op::Fetch { rec, by_name, a, span, near }),
         2 => (any::<u16>(), any::<bool>()).prop_map(|(rec, by_name)| Op::FetchAll { rec, by_name }),
+        4 => (any::<bool>(), any::<u16>(), any::<bool>(), any::<bool>()).prop_map(|(by_name, span, near, again)| Op::FetchNext { by_name, span, near, again }),
     ]
     .boxed()
 }
